@@ -100,7 +100,7 @@ PROPS = {
           "Crash points = (call k, before | after) for every call: a child daemon process (same test binary, real file database) syncs the chain and SIGKILLs itself at the point; plus, for every "
           "statement, 'a block fails': the statement returns an error and the daemon is stopped right after the failed attempt. Oracle: a fresh daemon opens the file; version rows are exactly "
           "start+1..H, each once, contiguous; synced metadata = H = the height implied by the crash point (h-1 before the COMMIT of block h returns, h after); ledger dump == D[H] (all of the blocks "
-          "<= H, nothing of H+1); after resuming to the tip ledger dump == D[tip]. quick: 40 points per chain (a third of them around COMMIT / sync-height writes); thorough: up to 1,000 points per chain (chains with fewer are enumerated exhaustively, "
+          "<= H, nothing of H+1); after resuming to the tip ledger dump == D[tip]. quick: 40 points per chain (a third of them around COMMIT / sync-height writes, the rest stratified by mode x before/after x statement text so that every distinct statement is interrupted somewhere); thorough: up to 1,000 points per chain (chains with fewer are enumerated exhaustively, "
           "longer ones keep every call around COMMIT and sample the rest). "
           "Non-trivial = the interrupted block issues >= 3 write statements; distinct by (chain, journal mode, call, before/after, mode).",
           quick=(8, 1), thorough=(16, 1), timeout=(900, 3300), shrinktime="20s", disk_scratch=True),
